@@ -79,26 +79,28 @@ Definition header_value (a : attr) (v : pyval) : pyval :=
 Definition sig_truthy (v : option pyval) : bool :=
   match v with None => false | Some x => truthy x end.
 
-(* DBusMessage._marshal(newSerial=True, oobFDs): returns the raw message and the
-   descriptor list after marshalling the body.  [serial] is DBusMessage._nextSerial. *)
-Definition marshal_msg (fuel : nat) (mtype : N) (expect_reply auto_start : bool)
-           (attrs : list (attr * pyval)) (body : pyval) (serial : Z) (fds : fdst)
-  : res (bytes * bytes * bytes * fdst) :=       (* (rawHeader, rawPadding, rawBody, oobFDs) *)
-  let flags := ((if expect_reply then 0 else 1) + (if auto_start then 0 else 2))%Z in
-  do bodyr <-
-    (if sig_truthy (get_attr ASignature attrs) then
-       match get_attr ASignature attrs with
-       | Some sv =>
-           match str_of sv with
-           | Some sig =>
-               do r <- m_marshal fuel sig body 0 true fds;
-               let '(_, b, fds') := r in Ok (b, fds')
-           | None => Err EType
-           end
-       | None => Ok ([], fds)
-       end
-     else Ok ([], fds));
-  let '(bin_body, fds') := bodyr in
+(* DBusMessage._marshal(newSerial=True, oobFDs), in three parts.
+   [marshal_body]: "if self.signature: binBody = marshal(self.signature, self.body, oobFDs)". *)
+Definition flags_of (expect_reply auto_start : bool) : Z :=
+  ((if expect_reply then 0 else 1) + (if auto_start then 0 else 2))%Z.
+
+Definition marshal_body (fuel : nat) (attrs : list (attr * pyval)) (body : pyval) (fds : fdst)
+  : res (bytes * fdst) :=
+  if sig_truthy (get_attr ASignature attrs) then
+    match get_attr ASignature attrs with
+    | Some sv =>
+        match str_of sv with
+        | Some sig =>
+            do r <- m_marshal fuel sig body 0 true fds;
+            let '(_, b, fds') := r in Ok (b, fds')
+        | None => Err EType
+        end
+    | None => Ok ([], fds)
+    end
+  else Ok ([], fds).
+
+(* self.headers: [code, value] for every attribute of the class table that is not None *)
+Definition header_list (mtype : N) (attrs : list (attr * pyval)) (fds' : fdst) : list pyval :=
   (* "if oobFDs:" sits inside "if self.signature:" *)
   let with_fds := sig_truthy (get_attr ASignature attrs) &&
                   match fds' with Some (_ :: _) => true | _ => false end in
@@ -106,18 +108,43 @@ Definition marshal_msg (fuel : nat) (mtype : N) (expect_reply auto_start : bool)
                 then attrs ++ [(AUnixFds, PInt (Z.of_nat (match fds' with Some l => length l | None => 0%nat end)))]
                 else attrs in
   let order := if with_fds then hattrs mtype ++ [AUnixFds] else hattrs mtype in
-  let headers :=
-    flat_map (fun a => match get_attr a attrs' with
-                       | Some PNone | None => []
-                       | Some v => [PList [PInt (Z.of_N (attr_code a)); header_value a v]]
-                       end) order in
+  flat_map (fun a => match get_attr a attrs' with
+                     | Some PNone | None => []
+                     | Some v => [PList [PInt (Z.of_N (attr_code a)); header_value a v]]
+                     end) order.
+
+(* the header with serial [serial], the padding, the size limit *)
+Definition marshal_header (fuel : nat) (mtype : N) (expect_reply auto_start : bool)
+           (attrs : list (attr * pyval)) (bin_body : bytes) (serial : Z) (fds' : fdst)
+  : res (bytes * bytes * bytes * fdst) :=       (* (rawHeader, rawPadding, rawBody, oobFDs) *)
   do hr <- m_marshal fuel header_format
-             (PList [PInt 108; PInt (Z.of_N mtype); PInt flags; PInt 1;
-                     PInt (Z.of_N (len bin_body)); PInt serial; PList headers]) 0 true None;
+             (PList [PInt 108; PInt (Z.of_N mtype); PInt (flags_of expect_reply auto_start); PInt 1;
+                     PInt (Z.of_N (len bin_body)); PInt serial; PList (header_list mtype attrs fds')]) 0 true None;
   let '(_, bin_header, _) := hr in
   let hp := zeros (pad_len 8 (len bin_header)) in
   if max_msg_len <? len bin_header + len hp + len bin_body then Err EMarshal
   else Ok (bin_header, hp, bin_body, fds').
+
+(* [serial] is DBusMessage._nextSerial *)
+Definition marshal_msg (fuel : nat) (mtype : N) (expect_reply auto_start : bool)
+           (attrs : list (attr * pyval)) (body : pyval) (serial : Z) (fds : fdst)
+  : res (bytes * bytes * bytes * fdst) :=
+  do bodyr <- marshal_body fuel attrs body fds;
+  let '(bin_body, fds') := bodyr in
+  marshal_header fuel mtype expect_reply auto_start attrs bin_body serial fds'.
+
+(* the same with the process-wide counter DBusMessage._nextSerial as explicit
+   state: the serial is taken, and the counter incremented, after the body has
+   been marshalled and before the header is (so a failure in the header or the
+   size check still consumes a serial, a failure in the body does not) *)
+Definition marshal_msg_st (fuel : nat) (mtype : N) (expect_reply auto_start : bool)
+           (attrs : list (attr * pyval)) (body : pyval) (next : Z) (fds : fdst)
+  : res (bytes * bytes * bytes * fdst) * Z :=
+  match marshal_body fuel attrs body fds with
+  | Err e => (Err e, next)
+  | Ok (bin_body, fds') =>
+      (marshal_header fuel mtype expect_reply auto_start attrs bin_body next fds', (next + 1)%Z)
+  end.
 
 Definition opt_valid (f : str -> bool) (truthy_only : bool) (v : pyval) : res unit :=
   (* "if x: validate(x)" (truthy_only) or unconditional validation *)
@@ -137,33 +164,67 @@ Definition reserved_path : str :=
 Definition py_str_eqb (v : pyval) (s : str) : bool :=
   match str_of v with Some x => str_eqb x s | None => false end.
 
-(* the constructors: validation, then _marshal.  [legacy] selects the pinned
-   commit's "if interface:" / "if destination:" tests (defect D27); the current
-   code validates whenever the value is not None. *)
+Definition geta (attrs : list (attr * pyval)) (a : attr) : pyval :=
+  match get_attr a attrs with Some v => v | None => PNone end.
+
+(* the validation the four constructors perform before _marshal.  [legacy]
+   selects the pinned commit's "if interface:" / "if destination:" tests
+   (defect D27); the current code validates whenever the value is not None. *)
+Definition validate_args (legacy : bool) (mtype : N) (attrs : list (attr * pyval)) : res unit :=
+  let opt' f a := if legacy then opt_valid f true (geta attrs a)
+                  else match geta attrs a with PNone => Ok tt | v => opt_valid f false v end in
+  match mtype with
+  | 1 =>
+      do _ <- opt_valid validate_member false (geta attrs AMember);
+      do _ <- opt' validate_iface AInterface;
+      do _ <- opt' validate_bus ADestination;
+      if py_str_eqb (geta attrs APath) reserved_path then Err EMarshal else Ok tt
+  | 2 => opt' validate_bus ADestination
+  | 3 =>
+      do _ <- opt' validate_bus ADestination;
+      opt_valid validate_iface false (geta attrs AErrorName)
+  | 4 =>
+      do _ <- opt_valid validate_member false (geta attrs AMember);
+      do _ <- opt_valid validate_iface false (geta attrs AInterface);
+      opt' validate_bus ADestination
+  | _ => Err EOther
+  end.
+
+(* the constructors: validation, then _marshal *)
 Definition construct (legacy : bool) (fuel : nat) (mtype : N) (expect_reply auto_start : bool)
            (attrs : list (attr * pyval)) (body : pyval) (serial : Z) (fds : fdst)
   : res (bytes * bytes * bytes * fdst) :=
-  let geta a := match get_attr a attrs with Some v => v | None => PNone end in
-  let opt f a := opt_valid f true (geta a) in
-  let opt' f a := if legacy then opt_valid f true (geta a)
-                  else match geta a with PNone => Ok tt | v => opt_valid f false v end in
-  do _ <- (match mtype with
-           | 1 =>
-               do _ <- opt_valid validate_member false (geta AMember);
-               do _ <- opt' validate_iface AInterface;
-               do _ <- opt' validate_bus ADestination;
-               if py_str_eqb (geta APath) reserved_path then Err EMarshal else Ok tt
-           | 2 => opt' validate_bus ADestination
-           | 3 =>
-               do _ <- opt' validate_bus ADestination;
-               opt_valid validate_iface false (geta AErrorName)
-           | 4 =>
-               do _ <- opt_valid validate_member false (geta AMember);
-               do _ <- opt_valid validate_iface false (geta AInterface);
-               opt' validate_bus ADestination
-           | _ => Err EOther
-           end);
+  do _ <- validate_args legacy mtype attrs;
   marshal_msg fuel mtype expect_reply auto_start attrs body serial fds.
+
+(* with the serial counter: result and the counter afterwards *)
+Definition construct_st (legacy : bool) (fuel : nat) (mtype : N) (expect_reply auto_start : bool)
+           (attrs : list (attr * pyval)) (body : pyval) (next : Z) (fds : fdst)
+  : res (bytes * bytes * bytes * fdst) * Z :=
+  match validate_args legacy mtype attrs with
+  | Err e => (Err e, next)
+  | Ok _ => marshal_msg_st fuel mtype expect_reply auto_start attrs body next fds
+  end.
+
+(* a history of constructor calls in one process *)
+Record creq := {
+  q_fuel : nat; q_type : N; q_expect_reply : bool; q_auto_start : bool;
+  q_attrs : list (attr * pyval); q_body : pyval; q_fds : fdst }.
+
+Definition construct_req (legacy : bool) (next : Z) (q : creq) :=
+  construct_st legacy (q_fuel q) (q_type q) (q_expect_reply q) (q_auto_start q)
+               (q_attrs q) (q_body q) next (q_fds q).
+
+(* the (serial used, result) of every call, and the final counter *)
+Fixpoint run_constructs (legacy : bool) (next : Z) (qs : list creq)
+  : list (Z * res (bytes * bytes * bytes * fdst)) * Z :=
+  match qs with
+  | [] => ([], next)
+  | q :: r =>
+      let '(o, next') := construct_req legacy next q in
+      let '(os, final) := run_constructs legacy next' r in
+      ((next, o) :: os, final)
+  end.
 
 (* ---------------------------------------------------------------------------
    parseMessage                                                                *)
@@ -221,6 +282,13 @@ Definition parse_message (legacy_flags : bool) (fuel : nat) (raw : bytes) (fds :
       | _ => Err EOther
       end
   end.
+
+(* the pinned commit's behaviour (before the fix: commits), named: parseMessage
+   ignoring the flags byte (defect D04) and constructors skipping the validation
+   of an empty interface / destination (defect D27) *)
+Definition parse_message_legacy := parse_message true.
+Definition validate_args_legacy := validate_args true.
+Definition construct_st_legacy := construct_st true.
 
 (* the length the framing layer computes from the first 16 bytes *)
 Definition frame_len (le : bool) (raw : bytes) : N :=
